@@ -108,8 +108,42 @@ def prepare(rec, flavour):
     return head, blocks, tail, base
 
 
+def dup_records(tier):
+    """records in which two gene features carry the SAME locus tag: whatever the parser does with them (refuse, as today,
+    or answer), it must do the same for every order of the rows"""
+    menu = [W.MENU[i] for i in SUBMENU]
+    out = []
+    for a, b in itertools.product(menu[:3], repeat=2):
+        rec = {"genome": "A", "genes": [dict(W.place(a, W.ARR2[0][0]), lt="dup_1"), dict(W.place(b, W.ARR2[0][1]), lt="dup_1")], "fcs": []}
+        for flavour in W.FLAVOURS:
+            if W.n_rows(rec, flavour) <= MAXROWS[tier]:
+                out.append((rec, flavour))
+    return out
+
+
+def check_dup(res, rec, flavour):
+    text = IO.export(rec, flavour, True)
+    head, blocks, tail = IO.split_feature_blocks(text)
+    outcomes = {}
+    for perm in itertools.permutations(range(len(blocks))):
+        o = lib.outcome(IO.parse, IO.join_feature_blocks(head, [blocks[i] for i in perm], tail), "LOCUS_TAG")
+        res.trans()
+        key = ("refused", o[1]) if o[0] != "ok" else ("genes", _genes_key(o[1]))
+        outcomes.setdefault(key, perm)
+    res.state(("gbdup", text))
+    res.nontriv(("gbdup", text))
+    res.note("genbank-dup", "refused-in-every-order" if all(k[0] == "refused" for k in outcomes) else "answered")
+    if len(outcomes) > 1:
+        ks = sorted(outcomes, key=repr)
+        res.deviation("parse_genbank:LOCUS_TAG(duplicate locus tag, permuted rows)", {"kind": "genbank-dup", "rec": rec, "flavour": flavour},
+                      [[k[0], str(k[1])[:120], list(outcomes[k])] for k in ks[:4]], "one outcome for every order of the rows", sig="gbdup-order-dependent")
+
+
 def run(res, shard):
     tier = shard["tier"]
+    for idx, (rec, flavour) in enumerate(dup_records(tier)):
+        if idx % shard["n"] == shard["i"]:
+            check_dup(res, rec, flavour)
     for idx, (rec, flavour) in enumerate(records(tier)):
         if idx % shard["n"] != shard["i"]:
             continue
@@ -122,5 +156,8 @@ def run(res, shard):
 
 
 def replay(res, case):
+    if case.get("kind") == "genbank-dup":
+        check_dup(res, case["rec"], case["flavour"])
+        return
     head, blocks, tail, base = prepare(case["rec"], case["flavour"])
     check_perm(res, case["rec"], case["flavour"], head, blocks, tail, tuple(case["perm"]), base, count=False)
